@@ -50,5 +50,8 @@ Record cfg := {
 Record pquirks := {
   q_ignored_enums : bool;     (* enums of an ignored class are still emitted *)
   q_values_insert : bool;     (* gtsam::Values::insert(size_t, ...) bound twice *)
+  q_keywords_table : bool;    (* only the names in the wrapper's own table are escaped (async, await missing) *)
+  q_var_default_ns : bool;    (* a namespaced variable with an initialiser is emitted as ns::<initialiser> *)
 }.
-Definition impl_pquirks : pquirks := {| q_ignored_enums := true; q_values_insert := true |}.
+Definition impl_pquirks : pquirks :=
+  {| q_ignored_enums := true; q_values_insert := true; q_keywords_table := true; q_var_default_ns := true |}.
